@@ -35,6 +35,36 @@ def import_repo():
     assert os.path.realpath(pymemcache.__file__).startswith(os.path.realpath(REPO)), pymemcache.__file__
 
 
+class FakeClock:
+    """what the harnesses put in place of the `time` module of pymemcache.client.hash / pymemcache.pool: every clock reading comes from one
+    virtual clock `now()`.  `time()` is that clock; `monotonic()` / `perf_counter()` run at the same rate from a different origin, 2**40 s
+    apart, as the wall clock and the monotonic clock of a real machine do (subtracting an integer keeps every reading and every difference
+    exact) - code that reads either clock consistently behaves the same, code that mixes the two does not."""
+    ORIGIN_GAP = 2 ** 40
+
+    def __init__(self, now):
+        self._now = now
+
+    def time(self):
+        return self._now()
+
+    def monotonic(self):
+        return self._now() - self.ORIGIN_GAP
+
+    perf_counter = monotonic
+
+    def time_ns(self):
+        return int(self._now() * 10 ** 9)
+
+    def monotonic_ns(self):
+        return int(self.monotonic() * 10 ** 9)
+
+    perf_counter_ns = monotonic_ns
+
+    def sleep(self, d):
+        raise AssertionError("the code under test slept on the virtual clock")
+
+
 def hx(b):
     if isinstance(b, str):
         b = b.encode("latin-1")
